@@ -803,7 +803,7 @@ Inductive cmd :=
 | DecrBy (k : list N) (z : Z)
 (* keys and expiry *)
 | Del (ks : list (list N))
-| Exists (ks : list (list N))
+| ExistsC (ks : list (list N))
 | TypeOf (k : list N)
 | Keys                                        (* KEYS * *)
 | Rename (a b : list N)
@@ -867,7 +867,7 @@ Definition tag (c : cmd) : string :=
   | MSetNx _ => "MSetNx" | GetRange _ _ _ => "GetRange" | SetRange _ _ _ => "SetRange"
   | GetEx _ _ => "GetEx" | GetDel _ => "GetDel" | Incr _ => "Incr" | Decr _ => "Decr"
   | IncrBy _ _ => "IncrBy" | DecrBy _ _ => "DecrBy"
-  | Del _ => "Del" | Exists _ => "Exists" | TypeOf _ => "TypeOf" | Keys => "Keys"
+  | Del _ => "Del" | ExistsC _ => "Exists" | TypeOf _ => "TypeOf" | Keys => "Keys"
   | Rename _ _ => "Rename" | RenameNx _ _ => "RenameNx" | DbSize => "DbSize"
   | FlushDb => "FlushDb" | FlushAll => "FlushAll"
   | Expire _ _ _ _ _ _ => "Expire" | PExpire _ _ _ _ _ _ => "PExpire" | ExpireAt _ _ => "ExpireAt"
@@ -901,7 +901,7 @@ Definition cmd_reject (c : cmd) : option ekind :=
   | ZAdd _ ps nx xx gt lt _ =>
       if negb (nonnil ps) then Some EArity
       else if (nx && xx) || (gt && lt) || (nx && (gt || lt)) then Some ESyntax else None
-  | MGet l | Del l | Exists l => if nonnil l then None else Some EArity
+  | MGet l | Del l | ExistsC l => if nonnil l then None else Some EArity
   | MSet l | MSetNx l => if nonnil l then None else Some EArity
   | LPush _ l | RPush _ l | SAdd _ l | SRem _ l | HDel _ l | ZRem _ l =>
       if nonnil l then None else Some EArity
@@ -999,7 +999,7 @@ Definition c_rename (s : state) (src dst : list N) (nx : bool) : state * reply :
 (* the keys a command reads or writes; [None] = the whole keyspace (KEYS, DBSIZE, FLUSHDB, FLUSHALL) *)
 Definition cmd_keys (c : cmd) : option (list (list N)) :=
   match c with
-  | MGet ks | Del ks | Exists ks => Some ks
+  | MGet ks | Del ks | ExistsC ks => Some ks
   | MSet kvs | MSetNx kvs => Some (map fst kvs)
   | Rename a b | RenameNx a b | RPopLPush a b | LMove a b _ _ => Some [a; b]
   | Keys | DbSize | FlushDb | FlushAll => None
@@ -1017,7 +1017,7 @@ Definition exec_wf (s : state) (now : N) (c : cmd) : state * reply :=
           if existsb (λ p, is_some (s !! p.1)) kvs then (s, RInt 0)
           else (mset_all s kvs, RInt 1)
       | Del ks => let '(s', n) := del_all s ks in (s', RInt n)
-      | Exists ks => (s, RInt (count_existing s ks))
+      | ExistsC ks => (s, RInt (count_existing s ks))
       | Keys => (s, RArr (map (λ p, RB p.1) (map_to_list s)))
       | DbSize => (s, RInt (zlen (map_to_list s)))
       | FlushDb | FlushAll => (∅, ROk)
